@@ -88,7 +88,14 @@ def ser_results(results):
         b += vlib.ser_n(2, len(h)) + bytes(h)
         if r[0] == "Y":
             b += b"\x00" + vlib.ser_bytes(r[1])
-            b += b"\x00" if r[2] is None else b"\x01" + vlib.ser_str(r[2].identity) + vlib.ser_bytes(r[2].payload)
+            if r[2] is None:
+                b += b"\x00"
+            else:
+                try:
+                    sr = b"\x00" + vlib.ser_bytes(r[2].serialize())
+                except Exception as e:  # noqa
+                    sr = bytes([vlib.exc_tag(e)])
+                b += b"\x01" + vlib.ser_str(r[2].identity) + vlib.ser_bytes(r[2].payload) + sr
         elif r[0] == "E":
             b += b"\x10"
         elif r[0] == "R":
@@ -271,6 +278,42 @@ def mixed_stream(tabs, rng, nitems, kinds, p_nmea_hdr):
     return b"".join(x[1] for x in items), items
 
 
+def deep_run(tabs, rng, kind, n):
+    """n consecutive items of one kind between good frames: returns (bytes, items).  A reader that handles an item by re-entering
+    itself, or that accumulates per-item state, behaves differently after a thousand of them than after ten."""
+    good = [pl for pl in valid_payloads(tabs, rng, 6) if (pl[0] << 4 | pl[1] >> 4) == 0x123 and len(pl) < 300][:2] or [bytes([0x12, 0x30, 7])]
+    g0 = ("frame", gen.frame(good[0]), good[0])
+    g1 = ("frame", gen.frame(good[-1] + b"\x01"), good[-1] + b"\x01")
+    small = bytes([0x12, 0x30])          # unknown message number 291: parses as a stub
+    its = []
+    for i in range(n):
+        if kind == "damaged":
+            f = bytearray(gen.frame(small + bytes([i & 255])))
+            q = 24 + (i * 7) % ((len(f) - 3) * 8)
+            f[q // 8] ^= 0x80 >> (q % 8)
+            its.append(("damaged", bytes(f), None))
+        elif kind == "zero":
+            its.append(("zero", gen.frame(b""), None))
+        elif kind == "short":
+            its.append(("short", gen.frame(b"\x3e"), None))        # one payload byte: the library's message error
+        elif kind == "falsesync":
+            its.append(("syncnoise", bytes([0xD3, 0xFC | (i & 3)]), None))     # reserved bits set: unknown protocol header
+        elif kind == "nmea":
+            its.append(("nmea", b"$GP" + bytes([65 + i % 26]) + b"\r\n", None))
+        elif kind == "ubx":
+            its.append(("ubx", gen.ubx_frame(rng, n=i % 3), None))
+        elif kind == "unknown":
+            pl = small + bytes([i & 255])
+            its.append(("frame", gen.frame(pl), pl))
+        else:
+            raise ValueError(kind)
+    items = [g0] + its + [g1]
+    return b"".join(x[1] for x in items), items
+
+
+DEEP = 1100       # above CPython's default recursion limit
+
+
 WELLFORMED = ["frame", "frame", "frame", "zero", "nmea", "nmea_lf", "ubx", "ubx_big", "noise"]
 WELLFORMED = WELLFORMED + ["zeros", "repeat", "samelen"]
 HOSTILE = WELLFORMED + ["damaged", "syncnoise", "falsesync", "reserved", "nmea_unlisted", "zeros"]
@@ -308,6 +351,11 @@ def check_C01(em, data, res, cfg, what):
             em.violation("C01: %s (%s)" % (bad, what), {"stream": data.hex(), "cfg": list(cfg), "frame": raw.hex()}, {})
             return
         pos = at + len(raw)
+
+
+def full_obs(m):
+    """everything a user can observe on a message object"""
+    return (m.identity, m.payload, gen.public_attrs(m), str(m), repr(m), m.serialize(), m.ismsm)
 
 
 def main():
@@ -417,15 +465,26 @@ def main():
                 if rng.random() < 0.3:
                     its.append(("nmea", gen.nmea_sentence(rng), None))
             special.append((b"".join(x[1] for x in its), its))
+        # UBX frames whose 16-bit little-endian length has the top bit set (a legal, unsigned length), between valid frames
+        for ulen in ((32767, 32768, 40000, 65535) if thorough else (32768, 65535)):
+            pls = [pl for pl in valid_payloads(tabs, rng, 4)]
+            its = [("frame", gen.frame(pls[0]), pls[0]), ("ubx", gen.ubx_frame(rng, n=ulen), None), ("frame", gen.frame(pls[1]), pls[1]),
+                   ("nmea", gen.nmea_sentence(rng), None), ("frame", gen.frame(pls[2]), pls[2])]
+            special.append((b"".join(x[1] for x in its), its))
+            em.count("ubx.length.%d" % ulen)
+        # more than a thousand consecutive foreign or filler items between two valid frames
+        for kind in (("nmea", "ubx", "zero", "unknown") if thorough else ("nmea", "zero", "unknown")):
+            special.append(deep_run(tabs, rng, kind, DEEP))
+            em.count("deeprun." + kind)
         for it in range((80 if thorough else 24) + len(special)):
             n = rng.randrange(2, 41 if thorough else 16)
             if it < len(special):
                 data, items = special[it]
             else:
                 data, items = mixed_stream(tabs, rng, n, WELLFORMED, None)
-            if len(data) > 9000:
+            if len(data) > 9000 and it >= len(special):
                 data, items = mixed_stream(tabs, rng, 6, WELLFORMED, None)
-            for q in (0, 1):
+            for q in ((0, 1) if len(items) < 200 else (0,)):
                 cfg = (1, q, 1, True)
                 res, st = add_file_case(em, p, data, [], cfg, len(items) + 3, "well-formed mixed stream of %d items, mode %d" % (len(items), q))
             # direct: iterate exactly as a user would
@@ -467,6 +526,21 @@ def main():
         em.samples = [{"items": [x[0] for x in items][:12], "bytes": len(data)}]
 
     elif prop == "C05":
+        # more than a thousand consecutive damaged frames between good ones: still exactly the good frames, one handler call each
+        data, items = deep_run(tabs, rng, "damaged", DEEP)
+        good = [x[1] for x in items if x[0] == "frame"]
+        for q in (0, 1, 2):
+            cfg = (1, q, 1, True)
+            res, st = add_file_case(em, p, data, [], cfg, (DEEP + 4) if q == 2 else 4, "%d consecutive damaged frames between two good ones, mode %d" % (DEEP, q))
+            em.direct_evaluations += 1
+            ys = [r[1] for h, r in res if r[0] == "Y"]
+            hc = sum(len(h) for h, r in res)
+            nr = sum(1 for h, r in res if r[0] == "R" and r[1] == 2)
+            if ys != good or any(r[0] == "F" for h, r in res) or (q == 0 and hc) or (q == 1 and hc != DEEP) or (q == 2 and nr != DEEP):
+                em.violation("C05: a run of %d consecutive damaged frames is not handled frame by frame in mode %d (frames returned %d of %d, handler calls %d, parse errors raised %d, foreign: %s)"
+                             % (DEEP, q, len(ys), len(good), hc, nr, [r[1] for h, r in res if r[0] == "F"][:1]),
+                             {"stream": data.hex(), "mode": q}, {})
+        em.count("deeprun.damaged")
         for it in range(70 if thorough else 20):
             n = rng.randrange(2, 12)
             pays = valid_payloads(tabs, rng, n)
@@ -601,8 +675,8 @@ def main():
             # validation off: wrong-checksum frames accepted and decoded as with the right checksum
             a_ = [(r[1], r[2]) for h, r in out[(0, True, 0, "badcrc")][0] if r[0] == "Y"]
             b_ = [(r[1], r[2]) for h, r in out[(1, True, 0, "good")][0] if r[0] == "Y"]
-            if len(a_) != len(b_) or any(x[0][:-3] != y[0][:-3] or gen.public_attrs(x[1]) != gen.public_attrs(y[1]) for x, y in zip(a_, b_)):
-                em.violation("C17: validate=0 does not decode wrong-checksum frames like the right-checksum ones", {"stream": bad.hex()}, {})
+            if len(a_) != len(b_) or any(x[0][:-3] != y[0][:-3] or full_obs(x[1]) != full_obs(y[1]) for x, y in zip(a_, b_)):
+                em.violation("C17: validate=0 does not decode wrong-checksum frames like the right-checksum ones (identity, payload, attributes, str, repr, serialize)", {"stream": bad.hex()}, {})
             # bytes taken are the same under every option (well-formed streams)
             poss = {k: v[1] for k, v in out.items()}
             if len(set(poss.values())) != 1:
@@ -636,11 +710,23 @@ def main():
                 g = f[:-3] + bytes([f[-3] ^ 0x55, f[-2], f[-1] ^ 1])
                 m1 = p.RTCMReader.parse(g, validate=0)
                 m2 = p.RTCMReader.parse(f, validate=1)
-                if gen.public_attrs(m1) != gen.public_attrs(m2) or m1.payload != m2.payload:
-                    em.violation("C17: static parse with validate=0 differs", {"frame": g.hex()}, {})
+                if full_obs(m1) != full_obs(m2):
+                    em.violation("C17: static parse with validate=0 of a wrong-checksum frame differs from the parse of the right frame (identity, payload, attributes, str, repr, serialize)", {"frame": g.hex(), "right_frame": f.hex()}, {})
         em.samples = [{"options": "validate x parsed x mode product on good and wrong-checksum copies of each stream"}]
 
     elif prop == "C04":
+        # more than a thousand consecutive recoverable items of one kind: nothing foreign (e.g. RecursionError), iteration finishes
+        for kind in ("damaged", "short", "falsesync", "zero", "nmea") + (("ubx", "unknown") if thorough else ()):
+            data, items = deep_run(tabs, rng, kind, DEEP)
+            for q in (0, 1):
+                res, st = add_file_case(em, p, data, [], (1, q, 1, True), 4 if kind != "unknown" else 12, "%d consecutive %s items, mode %d" % (DEEP, kind, q))
+                em.direct_evaluations += 1
+                for h, r in res:
+                    if r[0] in "FR":
+                        em.violation("C04: %s escaped read() in mode %d after a long run of %s items" % ("foreign exception " + str(r[1]) if r[0] == "F" else "an exception", q, kind),
+                                     {"stream": data.hex(), "cfg": [1, q, 1, True]}, {})
+                        break
+            em.count("deeprun." + kind)
         for it in range(120 if thorough else 40):
             c = rng.random()
             if c < 0.4:
